@@ -219,7 +219,20 @@ def unbounded(it):
 
 def data_dependent(size):
     """does an allocation size depend on the *contents* of a byte slice / on proof scalars (rather than lengths)?"""
-    for x in walk(size):
+    def walk_values(t):
+        # the length of anything is a length, whatever the thing holds: do not look inside `len(..)`
+        stack = [t]
+        while stack:
+            y = stack.pop()
+            yield y
+            if y.tag == 'call' and y[1].split('::')[-1] in ('len', 'count', 'capacity') and len(y[2]) == 1:
+                continue
+            for a in y.args:
+                if hasattr(a, 'tag'):
+                    stack.append(a)
+                elif isinstance(a, tuple):
+                    stack.extend(z for z in a if hasattr(z, 'tag'))
+    for x in walk_values(size):
         if x.tag in ('elem', 'elemat'):
             # an element of a byte slice (decoded data), not an element of a slice of statements / proofs
             base = x[1]
